@@ -4,10 +4,11 @@
            group of keys has zero length and the other has not).
    Part 2  the For node: class creation checks (__init_subclass__), the instance state
            (inputs, children, cache, outputs, failed), and one `run`:
-           Node._before_run (cache test -> _on_cache_miss -> cache write -> readiness gate)
+           Node._before_run (cache test -> _on_cache_miss -> readiness gate)
            -> For._build_body (_clean_existing_subgraph, _create_and_connect_input_to_body_nodes,
            _collect_output_as_dataframe | _collect_output_as_lists) -> the body DAG with the
-           body nodes completing in an arbitrary order -> collectors -> outputs.
+           body nodes completing in an arbitrary order -> collectors -> outputs -> Node._run_finally
+           (cache key written after a successful run).
    Part 3  the plain mathematical reference (mixed-radix decoding) the theorems compare with.
    Part 4  concrete toy bodies + printing to Base.obs for the correspondence check.
 
@@ -250,10 +251,19 @@ Definition picked (i : inputs) (m : imap) : list (string * Z) :=
 Definition dict_of {B} (l : list (string * B)) : list (string * B) :=
   fold_left (fun d kv => supd (fst kv) (snd kv) d) l [].
 
-(* what row collector n ends up holding: looped items, then the renamed body outputs, each
-   assignment to an already present key replacing the earlier one *)
+Definition lookupz (k : string) (r : list (string * Z)) : Z :=
+  match sassoc k r with Some z => z | None => 0%Z end.
+
+(* the input channels of a row collector: _build_row_collector_node's row_specification
+   (looped labels, then renamed outputs; a repeated name is one channel) *)
+Definition row_keys (c : cfg) : list string :=
+  map fst (dict_of (map (fun k => (k, tt)) (looped c ++ out_cols c))).
+
+(* what row collector n ends up holding: each channel shows the value connected to it last
+   (looped items are connected first, then the renamed body outputs) *)
 Definition row_of (c : cfg) (i : inputs) (m : imap) (a : list Z) : list (string * Z) :=
-  dict_of (picked i m ++ combine (out_cols c) (b_fun (c_body c) a)).
+  let d := dict_of (picked i m ++ combine (out_cols c) (b_fun (c_body c) a)) in
+  map (fun k => (k, lookupz k d)) (row_keys c).
 
 (* children after _build_body *)
 Definition add_child (x : obs) (ch : list obs) : list obs :=
@@ -288,9 +298,6 @@ Fixpoint set_nth {A} (n : nat) (x : A) (l : list A) : list A :=
 Definition collect {A} (n : nat) (f : nat -> A) (sch : list nat) : list (option A) :=
   fold_left (fun sl i => set_nth i (Some (f i)) sl) sch (repeat None n).
 
-Definition lookupz (k : string) (r : list (string * Z)) : Z :=
-  match sassoc k r with Some z => z | None => 0%Z end.
-
 (* names of the list-form outputs: _build_outputs_preview *)
 Definition list_names (c : cfg) : list string :=
   map fst (dict_of (map (fun l => (l, tt)) (filter (fun l => mems l (looped c)) (in_labels c)
@@ -322,28 +329,29 @@ Inductive outcome :=
 | Returned (t : option table) (calls : list (list Z))
 | Raised (e : exc) (failed : bool) (calls : list (list Z)).
 
-Definition with_cache (c : cfg) (st : fstate) : fstate :=
-  {| s_in := s_in st; s_children := s_children st;
-     s_cached := if c_cache c then Some (s_in st) else s_cached st;
-     s_out := s_out st; s_failed := s_failed st |}.
-
 Definition dropped (c : cfg) (maps : list imap) : list string :=
   filter (fun l => negb (mems l (map fst (hd [] maps)))) (looped c).
 
 Definition default_of (c : cfg) (l : string) : option Z :=
   match sassoc l (b_ins (c_body c)) with Some d => d | None => None end.
 
+(* Node.cache_hit (under use_cache): never while failed; the key is written only by a run
+   that succeeded (Node._run_finally) *)
+Definition hit (c : cfg) (st : fstate) : bool :=
+  c_cache c && negb (s_failed st) &&
+  match s_cached st with Some ci => inputs_eqb (s_in st) ci | None => false end.
+
 Definition run (c : cfg) (order : list nat) (st : fstate) : fstate * outcome :=
   let i := s_in st in
   (* Node._before_run: cache hit *)
-  if c_cache c && match s_cached st with Some ci => inputs_eqb i ci | None => false end then
+  if hit c st then
     (st, Returned (s_out st) [])
   else
     (* _on_cache_miss: if self.ready: self._build_body() *)
     let ready := all_data i && negb (s_failed st) in
     if negb ready then
-      (* no build; the cache is written, then the readiness gate raises *)
-      (with_cache c st, Raised ReadinessError (s_failed st) [])
+      (* no build; the readiness gate raises *)
+      (st, Raised ReadinessError (s_failed st) [])
     else
       match index_maps (data_of i) (Some (c_iter c)) (Some (c_zip c)) with
       | Err e => (st, Raised e false [])          (* raised before anything is touched *)
@@ -356,34 +364,36 @@ Definition run (c : cfg) (order : list nat) (st : fstate) : fstate * outcome :=
                 s_cached := None; s_out := s_out st; s_failed := false |},
              Raised AttributeError false [])
           else
-            let st1 := with_cache c
-                         {| s_in := i; s_children := build_children c maps;
-                            s_cached := None; s_out := s_out st; s_failed := false |} in
-            match dropped c maps with
-            | _ :: _ =>
-                (* index maps that do not mention every looped input: the collectors of the
-                   missing labels can never be ready, the run fails *)
-                let fail e calls :=
-                  ({| s_in := i; s_children := s_children st1; s_cached := s_cached st1;
-                      s_out := s_out st; s_failed := true |}, Raised e true calls) in
-                if c_df c then fail FailedChildError (sort_calls (somes (map (args_of c i) maps)))
-                else fail ReadinessError []
-            | [] =>
-                match all_some (map (args_of c i) maps) with
-                | None => (* a body node without data on a broadcast input *)
-                    ({| s_in := i; s_children := s_children st1; s_cached := s_cached st1;
-                        s_out := s_out st; s_failed := true |},
-                     Raised FailedChildError true (sort_calls (somes (map (args_of c i) maps))))
-                | Some argss =>
-                    let rows := map (fun ma : imap * list Z => row_of c i (fst ma) (snd ma))
-                                    (combine maps argss) in
-                    let slots := collect n (fun r => nth r rows []) (sched n order) in
-                    let t := table_of c (map (fun o => match o with Some r => r | None => [] end) slots) in
-                    ({| s_in := i; s_children := s_children st1; s_cached := s_cached st1;
-                        s_out := Some t; s_failed := false |},
-                     Returned (Some t) (sort_calls argss))
-                end
-            end
+            (* rebuilt sub-graph; remove_child/add_child cleared the cache *)
+            let finish (out : option table) (cached : option inputs) (failed : bool) :=
+              {| s_in := i; s_children := build_children c maps; s_cached := cached;
+                 s_out := out; s_failed := failed |} in
+            let argso := map (args_of c i) maps in
+            (* looped labels the index maps do not mention (see index_maps) ... *)
+            let missing := dropped c maps in
+            (* ... leave their collector channel without a source unless a renamed output
+               happens to be connected to the channel of that name *)
+            let unfed := filter (fun l => negb (mems l (out_cols c))) missing in
+            if negb (c_df c) && negb (isnil missing) then
+              (* list form: the column collector of a missing label has no upstream, is a
+                 starting node and is refused by its readiness gate before anything runs *)
+              (finish (s_out st) None true, Raised ReadinessError true [])
+            else
+              match unfed, all_some argso with
+              | [], Some argss =>
+                  let rows := map (fun ma : imap * list Z => row_of c i (fst ma) (snd ma))
+                                  (combine maps argss) in
+                  let slots := collect n (fun r => nth r rows []) (sched n order) in
+                  let t := table_of c (map (fun o => match o with Some r => r | None => [] end) slots) in
+                  (* Node._run_finally: the run succeeded, its inputs become the cache key *)
+                  (finish (Some t) (if c_cache c then Some i else None) false,
+                   Returned (Some t) (sort_calls argss))
+              | _, _ =>
+                  (* a row collector channel without source, or a body node without data on
+                     some input: the ready body nodes run, the others and the collectors fail *)
+                  (finish (s_out st) None true,
+                   Raised FailedChildError true (sort_calls (somes argso)))
+              end
       end.
 
 (* a scenario: create, then steps (assignments; run with a completion order) *)
@@ -457,6 +467,12 @@ Definition spec_calls (c : cfg) (i : inputs) : list (list Z) :=
    first to need, then the collectors -- a function of the current inputs only *)
 Definition spec_children (c : cfg) (i : inputs) : list obs :=
   build_children c (map (entry_of c i) (seq 0 (nrows c i))).
+
+(* the node after a rebuilding run on inputs i, as the property wants it *)
+Definition built (c : cfg) (i : inputs) : fstate :=
+  {| s_in := i; s_children := spec_children c i;
+     s_cached := if c_cache c then Some i else None;
+     s_out := Some (spec_table c i); s_failed := false |}.
 
 Definition count_kind (k : string) (ch : list obs) : nat :=
   List.length (filter (fun o => match o with OL (OS k' :: _) => String.eqb k k' | _ => false end) ch).
